@@ -47,8 +47,17 @@ LEVEL_TEXT = {
 _SYS = (" Random walks through the WHOLE machine (Gen_SYS.tla under tlc -simulate: edits, copies, k-mers, iterators, observers side by side) are "
         "replayed as well; a divergence is reported by the property that owns the diverging operation.")
 _GIANT = " Thorough tier: the same family of calls on a sequence longer than 2^32 bits whose content the specification knows as a function of the position (Giant.tla)."
+_TLAPS = {
+    "SliceLaws": " Unbounded (TLAPS, spec/tlaps/SliceLaws.tla): slice length, i-th symbol and slice-of-slice = slice at the summed offsets, for any length.",
+    "TransformLaws": " Unbounded (TLAPS, spec/tlaps/TransformLaws.tla): reversal is an involution, position-wise tables commute with it, involutive / idempotent / absorbing / commuting tables lift to sequences, for any length and alphabet.",
+    "ColexNumeric": " Unbounded (TLAPS, spec/tlaps/ColexNumeric.tla, thorough tier): colexicographic order = numeric order of the packed integers and packing is injective, for any base and length.",
+    "TableFoldProof": " Unbounded (TLAPS, spec/tlaps/TableFoldProof.tla): the folded inverse map is a function of the forward map alone, for any sets of codons and amino acids.",
+}
 from plan import PLAN as _PLAN
 for _pid, _pl in _PLAN.items():
+    for _tier in ("quick", "thorough"):
+        for _m in _pl.get("tlaps", {}).get(_tier, []):
+            LEVEL_TEXT[_pid] += _TLAPS[_m]
     if any(len(g) > 2 for g in _pl.get("gen", {}).get("quick", [])):
         LEVEL_TEXT[_pid] += _SYS
     if any(t[0].startswith("giant_") for t in _pl.get("traces", [])):
